@@ -1,10 +1,13 @@
 //! C26 — yq results do not depend on the input's syntax.
 //!
-//! `run <prog hex> <br n toks> <hexA> <br n toks> <hexB> <json hex>`: one data tree (a sequence of
-//! sub-trees) rendered as block YAML (A), flow YAML (B) and JSON; the CLI (`SV_CLI`) evaluates
+//! `run <prog hex> <features> <br n toks> <hexA> <br n toks> <hexB> <json hex>`: one data tree (a sequence of
+//! 24 sub-trees) and five programs joined by `,` rendered as block YAML (A), flow YAML (B) and JSON; the CLI (`SV_CLI`) evaluates
 //! `.[] | (prog)` with `-o json -I 0` on each (JSON with `-p json`); answer `SAME <hash>` when exit
 //! code and stdout agree, else `DIFF …`.  The driver checks that all three renderings denote the same
 //! tree (loadRef on A and B, its JSON reader on the JSON) and answers `SAME`.
+//! `nav <prog hex> <features> …same…`: one navigation or evaluator program applied verbatim to a tree that
+//! carries integers around 2^53, at the ends of the i64 range and 10^15…10^18; four CLI runs: block
+//! YAML, flow YAML, JSON on stdin with `-p json`, and the JSON as a file named `*.json`.
 use crate::c14::yamlgen::*;
 use crate::rng::Rng;
 use crate::util::*;
@@ -135,27 +138,79 @@ fn brief(s: &str) -> String {
     format!("{:016x}:{}", fnv(s), t.replace(|c: char| c == ' ' || c == '\n' || c == '\t', "_"))
 }
 
+static FILE_SEQ: std::sync::atomic::AtomicUsize = std::sync::atomic::AtomicUsize::new(0);
+
+/// `yq -o json -I 0 prog <file>.json` (the extension declares the input format).
+fn run_cli_json_file(prog: &str, js: &[u8]) -> String {
+    let n = FILE_SEQ.fetch_add(1, std::sync::atomic::Ordering::SeqCst);
+    let path = std::env::temp_dir().join(format!("sv-c26-{}-{}.json", std::process::id(), n));
+    if std::fs::write(&path, js).is_err() {
+        return "TEMPFILE-FAILED".into();
+    }
+    let ps = path.to_string_lossy().to_string();
+    let out = run_cli(&["yq", "-o", "json", "-I", "0", prog, &ps], b"");
+    let _ = std::fs::remove_file(&path);
+    out
+}
+
 pub fn exec(a: &[&str]) -> String {
     match a[0] {
-        "run" => {
+        "run" | "nav" => {
             let prog = String::from_utf8(parse_bytes(a[1])).unwrap();
-            let prog = format!(".[] | ({prog})");
-            let ya = parse_bytes(a[5]);
-            let yb = parse_bytes(a[9]);
-            let js = parse_bytes(a[10]);
+            let prog = if a[0] == "run" { format!(".[] | ({prog})") } else { prog };
+            let ya = parse_bytes(a[6]);
+            let yb = parse_bytes(a[10]);
+            let js = parse_bytes(a[11]);
             let oa = run_cli(&["yq", "-o", "json", "-I", "0", &prog], &ya);
             let ob = run_cli(&["yq", "-o", "json", "-I", "0", &prog], &yb);
             let oj = run_cli(&["yq", "-p", "json", "-o", "json", "-I", "0", &prog], &js);
-            if oa == ob && ob == oj {
+            let of = if a[0] == "nav" { run_cli_json_file(&prog, &js) } else { oj.clone() };
+            if oa == ob && ob == oj && oj == of {
                 format!("SAME {:016x}", fnv(&oa))
             } else {
-                format!("DIFF json={} block={} flow={}", brief(&oj), brief(&oa), brief(&ob))
+                format!("DIFF json={} jsonfile={} block={} flow={}", brief(&oj), brief(&of), brief(&oa), brief(&ob))
             }
         }
         _ => "BAD-OP".into(),
     }
 }
 
+/// A block presentation of a tree (collections in block style, scalars in random spellings).
+fn to_block(t: &Tree, r: &mut Rng, ctx: Ctx) -> PNode {
+    match t {
+        Tree::Seq(xs) if !xs.is_empty() => PNode::Seq {
+            flow: false,
+            step: if ctx == Ctx::Map && r.chance(1, 3) { 0 } else { 2 },
+            compact: ctx == Ctx::Seq && r.chance(1, 4),
+            items: xs.iter().map(|x| (Meta::default(), to_block(x, r, Ctx::Seq))).collect(),
+        },
+        Tree::Map(kvs) if !kvs.is_empty() => PNode::Map {
+            flow: false,
+            step: 2,
+            compact: ctx == Ctx::Seq && r.chance(1, 4),
+            entries: kvs
+                .iter()
+                .map(|(k, x)| {
+                    let ks = if plain_safe(false, k) && resolves_to_str(k) && k != "<<" { KStyle::Plain } else { KStyle::Double { short: true, esc_uni: false } };
+                    (Meta::default(), k.clone(), ks, to_block(x, r, Ctx::Map))
+                })
+                .collect(),
+        },
+        other => to_flow(other, r),
+    }
+}
+
+pub const BIG_INTS: &[i64] = &[
+    9007199254740991, 9007199254740992, 9007199254740993, -9007199254740993, 9007199254740995, i64::MAX, i64::MIN, i64::MIN + 1, i64::MAX - 1,
+    1_000_000_000_000_000, 10_000_000_000_000_001, 100_000_000_000_000_003, 1_000_000_000_000_000_007, 999_999_999_999_999_999, 1_234_567_890_123_456_789,
+    -1_000_000_000_000_000_001, 4_611_686_018_427_387_905, 72_057_594_037_927_937,
+];
+
+/// Navigation programs the yq front end can stream, and evaluator-path programs over the same paths.
+pub const NAV_PROGRAMS: &[&str] = &[
+    ".", ".[]", ".[0]", ".[1]", ".[1].id", ".[1].lims", ".[1].lims[]", ".[2]", ".[2][]", ".[2][0]", ".[3]", ".[1].lims[1]", ".[] | .", ".[1] | .id",
+    "[.[] | numbers]", ".[1].id + 0", "[.. | numbers]", "map(.)", ".[1] | to_entries", "[.[1].lims[] | tostring]", ".[2] | add", "[.[2][] | . - 1]", ".[1].lims | sort", "tojson",
+];
 pub const PROGRAMS: &[&str] = &[
     ".", "[..]|length", "[paths]", "[leaf_paths]", "[..|type]", "[..|length?]", "[..|tostring]", "[..|tojson]", "[..|keys?]",
     "[..|to_entries?]", "[..|numbers|.+1]", "[..|numbers|.*2-1]", "[..|numbers|-.]", "[..|numbers|.%7]", "[..|strings|ascii_downcase]",
@@ -175,16 +230,18 @@ pub const PROGRAMS: &[&str] = &[
 ];
 
 pub fn gen(tier: Tier, r: &mut Rng, emit: &mut dyn FnMut(String)) {
-    let n = if tier == Tier::Quick { 40 } else { 400 };
+    let n = if tier == Tier::Quick { 10 } else { 400 };
     let o = GenOpts { block_scalars: true, comments: true, breaks: false, anchors: false, multidoc: false, max_depth: 3 };
     let mut made = 0;
     let mut attempts = 0;
     while made < n && attempts < n * 50 {
         attempts += 1;
         // a block sequence of K generated sub-trees
-        let k = 12;
-        let mut items = Vec::new();
-        for _ in 0..k {
+        let k = 24;
+        let mut items: Vec<(Meta, PNode)> = Vec::new();
+        let mut tries = 0;
+        while items.len() < k && tries < 400 {
+            tries += 1;
             let d = {
                 let mut g = Gen::new(r, o);
                 g.doc(true)
@@ -193,7 +250,12 @@ pub fn gen(tier: Tier, r: &mut Rng, emit: &mut dyn FnMut(String)) {
                 PNode::Null(4) => PNode::Null(0),
                 x => x,
             };
-            items.push((Meta::default(), root));
+            // sub-trees showing a presentation feature with a recorded loader finding are left to C14
+            let one = PStream { docs: vec![PDoc { fill: vec![], marker: false, end_marker: false, root: PNode::Seq { flow: false, step: 2, compact: false, items: vec![(Meta::default(), root.clone())] }, root_meta: Meta::default() }], br: Break::Lf };
+            let f = features(&one);
+            if f == "-" || f == "len64" {
+                items.push((Meta::default(), root));
+            }
         }
         // re-home the roots as sequence items: root-only constraints are weaker than item constraints,
         // so re-check by features and by the reference loader on the driver side
@@ -208,10 +270,21 @@ pub fn gen(tier: Tier, r: &mut Rng, emit: &mut dyn FnMut(String)) {
         }
         let mut js = String::new();
         to_json(&tree, &mut js);
-        let prog = PROGRAMS[made % PROGRAMS.len()];
+        // five programs per CLI run (comma = concatenated output streams): fewer process spawns
+        let prog = (0..5).map(|j| format!("({})", PROGRAMS[(made * 5 + j) % PROGRAMS.len()])).collect::<Vec<_>>().join(", ");
+        let prog = prog.as_str();
+        // `length` applied directly to a number counts the characters of its spelling (recorded finding N1)
+        let numlen = prog.contains("(length?)") && a_items_have_int(&a);
+        let dqlp = dq_lp(&a.docs[0].root) || dq_lp(&b.docs[0].root);
         emit(format!(
-            "C26 run {} {} {} {} {} {}",
+            "C26 run {} {} {} {} {} {} {}",
             hex_bytes(prog.as_bytes()),
+            match (numlen, dqlp) {
+                (true, true) => "numlen,dq-LP",
+                (true, false) => "numlen",
+                (false, true) => "dq-LP",
+                _ => "-",
+            },
             stream_wire(&a),
             hex_bytes(&render(&a)),
             stream_wire(&b),
@@ -219,5 +292,68 @@ pub fn gen(tier: Tier, r: &mut Rng, emit: &mut dyn FnMut(String)) {
             hex_bytes(js.as_bytes())
         ));
         made += 1;
+    }
+    // integers beyond 2^53 under navigation programs, JSON given on stdin and as a *.json file
+    let nn = if tier == Tier::Quick { 10 } else { 300 };
+    let mut i = 0;
+    let mut nav_tries = 0;
+    while i < nn && nav_tries < nn * 30 {
+        nav_tries += 1;
+        let big = |r: &mut Rng| Tree::Int(*r.pick(BIG_INTS));
+        let rnd = |r: &mut Rng| if r.chance(1, 2) { Tree::Int(*r.pick(BIG_INTS)) } else { Tree::Int((r.next_u64() as i64) >> r.below(12)) };
+        let mut lims = Vec::new();
+        for _ in 0..r.range(2, 4) {
+            lims.push(rnd(r));
+        }
+        let mut row = Vec::new();
+        for _ in 0..r.range(2, 5) {
+            row.push(rnd(r));
+        }
+        let tree = Tree::Seq(vec![
+            big(r),
+            Tree::Map(vec![("id".into(), big(r)), ("lims".into(), Tree::Seq(lims)), ("s".into(), Tree::Str("x y".into())), ("small".into(), Tree::Int(r.below(1000) as i64))]),
+            Tree::Seq(row),
+            rnd(r),
+            Tree::Str(gen_string(r)),
+        ]);
+        let a = PStream { docs: vec![PDoc { fill: vec![], marker: false, end_marker: false, root: to_block(&tree, r, Ctx::Root), root_meta: Meta::default() }], br: Break::Lf };
+        let b = PStream { docs: vec![PDoc { fill: vec![], marker: false, end_marker: false, root: to_flow(&tree, r), root_meta: Meta::default() }], br: Break::Lf };
+        if features(&a) != "-" || features(&b) != "-" {
+            continue;
+        }
+        let mut js = String::new();
+        to_json(&tree, &mut js);
+        let prog = NAV_PROGRAMS[(i * 7 + r.usize_below(3)) % NAV_PROGRAMS.len()];
+        emit(format!(
+            "C26 nav {} {} {} {} {} {} {}",
+            hex_bytes(prog.as_bytes()),
+            if dq_lp(&a.docs[0].root) || dq_lp(&b.docs[0].root) { "dq-LP" } else { "-" },
+            stream_wire(&a),
+            hex_bytes(&render(&a)),
+            stream_wire(&b),
+            hex_bytes(&render(&b)),
+            hex_bytes(js.as_bytes())
+        ));
+        i += 1;
+    }
+}
+
+/// A double-quoted scalar or key written with the short escapes `\L` / `\P` (U+2028 / U+2029): the
+/// JSON output spells it `\u2028` while the same string from a raw source is written raw (finding N2).
+fn dq_lp(n: &PNode) -> bool {
+    let lp = |s: &str| s.contains('\u{2028}') || s.contains('\u{2029}');
+    match n {
+        PNode::Str(s, SStyle::Double { short: true, .. }) => lp(s),
+        PNode::Seq { items, .. } => items.iter().any(|e| dq_lp(&e.1)),
+        PNode::Map { entries, .. } => entries.iter().any(|e| (matches!(e.2, KStyle::Double { short: true, .. }) && lp(&e.1)) || dq_lp(&e.3)),
+        PNode::Anchored(_, x) => dq_lp(x),
+        _ => false,
+    }
+}
+
+fn a_items_have_int(a: &PStream) -> bool {
+    match &a.docs[0].root {
+        PNode::Seq { items, .. } => items.iter().any(|(_, x)| matches!(x, PNode::Int(..))),
+        _ => false,
     }
 }
